@@ -26,6 +26,7 @@ import (
 	"os"
 	"path/filepath"
 	"sort"
+	"sync"
 	"time"
 
 	"filippo.io/keygen"
@@ -104,11 +105,24 @@ func c19SignLogCheckpoint(k *ecdsa.PrivateKey, origin string, size int64, root v
 	return b
 }
 
+var (
+	c19GzipMu sync.Mutex
+	c19GzipW  *gzip.Writer
+)
+
+// c19Gzip compresses with one reused writer (a fresh flate compressor costs
+// ~1 MB of zeroed memory, which dominated the run time of small cases).
 func c19Gzip(b []byte) []byte {
+	c19GzipMu.Lock()
+	defer c19GzipMu.Unlock()
 	var buf bytes.Buffer
-	w := gzip.NewWriter(&buf)
-	w.Write(b)
-	w.Close()
+	if c19GzipW == nil {
+		c19GzipW = gzip.NewWriter(&buf)
+	} else {
+		c19GzipW.Reset(&buf)
+	}
+	c19GzipW.Write(b)
+	c19GzipW.Close()
 	return buf.Bytes()
 }
 
